@@ -296,6 +296,9 @@ func (f *Full) Restart(clean bool) error {
 func (f *Full) RestartOn(raw *world.CrashDS, clean bool) error {
 	f.DA.SetDeadFn(nil)
 	f.Exec.SetDeadFn(nil)
+	if !clean {
+		f.Errors = nil // what the dying process reported is not the new process's error
+	}
 	f.Raw = raw
 	n, err := f.N.Restart(context.Background(), raw, nil, f.Exec, world.NewSeqDbl(func() time.Time { return pw.GenesisTime }), f.DA)
 	if err != nil {
